@@ -126,7 +126,8 @@ def layout(pl, rng, p_sub=0.35, p_ignore=0.12, p_dup=0.12, p_second=0.1):
         e = {'tag': tag, 'path': r, 'target': p, 'hashes': rng.choice(HASHSETS)}
         pl.manifests[mfile(g)].append(e)
         if rng.random() < p_dup:
-            kind = rng.choice(['same', 'other-hashes', 'other-type', 'conflict-size', 'conflict-hash', 'incompatible', 'ignore-too'])
+            kind = rng.choice(['same', 'other-hashes', 'other-type', 'conflict-size', 'conflict-hash', 'incompatible', 'ignore-too',
+                               'shared-bad-hash'])
             if getattr(pl, 'no_conflicts', False):
                 kind = rng.choice(['same', 'other-hashes', 'other-type'])
             g2 = governing(p) if rng.random() < 0.5 else g
@@ -141,6 +142,11 @@ def layout(pl, rng, p_sub=0.35, p_ignore=0.12, p_dup=0.12, p_second=0.1):
                 e2['hashes'] = e['hashes'] or ['MD5']
                 e['hashes'] = e2['hashes']
                 e2['bad_hash'] = True
+            elif kind == 'shared-bad-hash':
+                # compatible duplicates with overlapping hash sets whose SHARED digest is wrong for the file (and equal in
+                # both lines), every digest listed by only one of them being right: the file must not verify
+                e['hashes'], e2['hashes'] = ['MD5', 'SHA1'], ['SHA1', 'SHA256']
+                e['bad_hash_name'] = e2['bad_hash_name'] = 'SHA1'
             elif kind == 'incompatible':
                 e2['tag'] = 'MISC' if tag != 'MISC' else 'DATA'
             elif kind == 'ignore-too':
@@ -211,6 +217,9 @@ def manifest_text(pl, mp, written):
             if e.get('bad_hash'):
                 k = sorted(cks)[0]
                 cks[k] = ('0' if cks[k][0] != '0' else '1') + cks[k][1:]
+            if e.get('bad_hash_name') in cks:
+                k = e['bad_hash_name']
+                cks[k] = ('0' if cks[k][0] != '0' else '1') + cks[k][1:]
             path = e['path']
             if t == 'AUX':
                 path = path[len('files/'):]
@@ -237,7 +246,9 @@ def write_plan(pl, root):
     for p in pl.fifos:
         os.mkfifo(os.path.join(root, p))
     # bottom-up; a Manifest referencing a sibling Manifest is written after it
-    order = sorted(pl.manifests, key=lambda s: (-s.count('/'), 0 if os.path.basename(s) == 'Manifest.extra' else 1, s))
+    sib_targets = set(e['target'] for mp2, es in pl.manifests.items() for e in es
+                      if e['tag'] == 'MANIFEST' and os.path.dirname(e['target']) == os.path.dirname(mp2))
+    order = sorted(pl.manifests, key=lambda s: (-s.count('/'), 0 if s in sib_targets else 1, s))
     texts = {}
     for mp in order:
         text = manifest_text(pl, mp, written)
